@@ -114,7 +114,7 @@ func rehomeStruct(v reflect.Value, spare int) {
 			nb[i] = 0xA5
 		}
 		copy(nb, b)
-		return nb[:len(b):len(b)+spare]
+		return nb[: len(b) : len(b)+spare]
 	}
 	for i := 0; i < v.NumField(); i++ {
 		f := v.Type().Field(i)
